@@ -630,9 +630,11 @@ def oracle_dp(case, res):
         p = res["predict"]
         return [(dict(sig0, raised=p["raised"], where=p["where"]), "predict raised %s in %s (%s)" % (p["raised"], p["where"], p["msg"]))]
     fails = []
-    if not res["index_equal"]:
+    # one row per input timestamp (as multisets: the frame of a daily data object is itself out of order around a
+    # skipped calendar day, Pacific/Apia 2011-12-30; chronological order is asked of the output, next check)
+    if sorted(t for t, _ in res["out"]) != sorted(r[0] for r in res["rows"]):
         fails.append((dict(sig0, broken="index differs from the input index"),
-                      "predict returned %d rows for %d input timestamps / another index or order" % (len(res["out"]), len(res["rows"]))))
+                      "predict returned %d rows for %d input timestamps / other timestamps" % (len(res["out"]), len(res["rows"]))))
     if not res["increasing"]:
         fails.append((dict(sig0, broken="not strictly increasing"), "output index is not in chronological order"))
     want = {}
@@ -758,13 +760,9 @@ def process_hp(run, st, cases, results):
             run.sample({"zone": z, "class": cls, "rows": p["rows"], "day_lengths": [len(r) for _, r in days][:12],
                         "observed": case["with_obs"], "index_equal": True})
         # ci: the contiguous index
-        od_first = cz.local_fields(res["input_first"], z)[0]
-        od_last = cz.local_fields(res["input_last"], z)[0]
-        s = cz.local_midnight_utc(od_first, z, 0)
-        e = cz.local_midnight_utc(od_last, z, 23)
-        if s is not None and e is not None:
-            st.add("ci", "(%s, %s, %s)" % (zlit(cz.to_minutes(s)), zlit(cz.to_minutes(e)), coq_zlist(res["idx"])),
-                   {"case": case})
+        s_min = cz.replace_hour(res["input_first"], z, 0)
+        e_min = cz.replace_hour(res["input_last"], z, 23)
+        st.add("ci", "(%s, %s, %s)" % (zlit(s_min), zlit(e_min), coq_zlist(res["idx"])), {"case": case})
         # gi on the data object's frame, hp
         cd = coq_cdays(days, z, res["obs_nonnull"])
         t = coq_res_idx(res["gi"])
@@ -896,6 +894,8 @@ def process_dp(run, st, cases, results):
                           expected="predict(data).index equals data.df.index, chronological; predicted finite iff temperature "
                                    "(and usage, when supplied) finite", generator="c06.gen_dp_cases")
         run.dist("daily_model", "%s/%s/%s" % (case["model"], case["input"], "observed" if res["has_obs"] else "no observed"))
+        if "rows" in res and [r[0] for r in res["rows"]] != sorted(r[0] for r in res["rows"]):
+            run.dist("daily_data_class", "frame of the data object is not in chronological order (%s)" % case["zone"])
         if "predict" in res:
             run.count(key, nontrivial=True)
             st.outside("dp", case, res["predict"])
@@ -1024,13 +1024,13 @@ def main():
     MODEL_JSON = fit_hourly()
     run.log("hourly model fitted")
     hp_cases = witness_cases() + gen_hp_cases(rng, plan, run.n(4, 10**6), not run.quick())
-    dp_cases = gen_dp_cases(rng, plan, run.n(260, 8000))
+    dp_cases = gen_dp_cases(rng, plan, run.n(220, 3000))
     jobs = [(z, tr, rng.randrange(2**31)) for z, tr in plan if tr]
     with get_context("fork").Pool(int(os.environ.get("VERIF_PROCS", "14"))) as pool:
         r_win = pool.map_async(run_windows, jobs, chunksize=1)
         r_hp = pool.map_async(run_hp, hp_cases, chunksize=4)
         r_dp = pool.map_async(run_dp, dp_cases, chunksize=4)
-        process_patterns(run, st, rng, gen_patterns(rng, run.n(400, 6000)))
+        process_patterns(run, st, rng, gen_patterns(rng, run.n(300, 3000)))
         run.log("pattern streams done")
         win = [rec for lst in r_win.get() for rec in lst]
         run.log("window stream done (%d records)" % len(win))
